@@ -10,8 +10,10 @@ READY = True
 IMPORTS = "From LE Require Import BFT.Contradiction BFT.Votes BFT.Universe Corr.C02 Corr.C01."
 MANIFEST = {
     "technique": "Coq proof (protocol-level safety under quorum intersection + refutation witnesses on the faithful liskbft model) + differential correspondence on two-chain universes with a safety oracle evaluated in Coq",
-    "text": "Proved from the faithful executable model of liskbft with no remaining premise (C01_static_safety_decl, "
-            "_one_third, _same_height_same_block): for every static validator set with prevoteThr+precommitThr > W+f (default "
+    "text": "Proved from the faithful executable model of liskbft with no remaining premise (C01_static_safety_ids, "
+            "_ids_one_third, _same_height_same_block_ids over blocks WITH identity -- histories of (id, BFT tuple) pairs, a same-tuple / "
+            "different-id double forger is Byzantine; and their identity-free forms C01_static_safety_decl, _one_third, "
+            "_same_height_same_block): for every static validator set with prevoteThr+precommitThr > W+f (default "
             "thresholds and < 1/3 Byzantine weight in particular), every prefix-closed universe of valid chains (all fork trees, all "
             "Byzantine strategies, all weight vectors, any length relative to the window), the blocks finalized by any two views lie "
             "on one chain. The proof decomposes every prevote/precommit weight into duplicate-free contributor lists (VotesGhost.v), "
@@ -31,10 +33,20 @@ MANIFEST = {
 }
 
 
+def ids_of(u):
+    """Block ids (opaque to liskbft). Inputs recorded before ids existed get ids distinct by branch and position."""
+    ic = u.get("idsC") if u.get("idsC") is not None and len(u.get("idsC")) == len(u["common"]) else [i + 1 for i in range(len(u["common"]))]
+    ia = u.get("idsA") if u.get("idsA") is not None and len(u.get("idsA")) == len(u["a"]) else [1000000 + i for i in range(len(u["a"]))]
+    ib = u.get("idsB") if u.get("idsB") is not None and len(u.get("idsB")) == len(u["b"]) else [2000000 + i for i in range(len(u["b"]))]
+    return ic, ia, ib
+
+
 def uni_term(u):
-    return "(%d%%nat, %d, %s, %s, %s, %s, %s, %s, %s)" % (
+    ic, ia, ib = ids_of(u)
+    return "(%d%%nat, %d, %s, %s, %s, %s, %s, %s, %s, %s, %s, %s)" % (
         u["batch"], u["gh"], c02.change(u["init"]), clist(u["common"], c02.block), clist(u["a"], c02.block),
-        clist(u["b"], c02.block), cbool(u["initok"]), clist(u["obsA"], c02.obs), clist(u["obsB"], c02.obs))
+        clist(u["b"], c02.block), cbool(u["initok"]), clist(u["obsA"], c02.obs), clist(u["obsB"], c02.obs),
+        clist(ic), clist(ia), clist(ib))
 
 
 KEYS = {20: "c01:low-precommit-threshold", 21: "c01:fork-dependent-validator-change", 22: "c01:conflicting-finality"}
@@ -51,6 +63,13 @@ def evaluate(ck, recs, tag="uni"):
         fb = u["obsB"][-1]["heights"][1] if u["obsB"] else u["gh"]
         if max(fa, fb) > u["gh"] + nc and u["a"] and u["b"]:
             ck.nontrivial(json.dumps([u["common"], u["a"], u["b"]], sort_keys=True))
+        if u["a"] and u["b"] and fa > u["gh"] and fb > u["gh"]:
+            ck.extra["universes_where_both_views_finalized"] = ck.extra.get("universes_where_both_views_finalized", 0) + 1
+        if u["a"] and u["b"] and min(fa, fb) > u["gh"] + nc:
+            # both branches finalized beyond the fork: necessarily a conflict (classes 20/21/22)
+            ck.extra["universes_where_both_branches_finalized_beyond_fork"] = ck.extra.get("universes_where_both_branches_finalized_beyond_fork", 0) + 1
+        if u.get("twins"):
+            ck.extra["universes_with_same_tuple_different_id_double_forge"] = ck.extra.get("universes_with_same_tuple_different_id_double_forge", 0) + 1
         # chain switch on one node (one module instance, reverted store) must give the view of a fresh node on the same chain
         sw = u.get("obsSwitch") or []
         if sw and sw != u["obsB"][nc:nc + len(sw)]:
@@ -64,6 +83,7 @@ def evaluate(ck, recs, tag="uni"):
         if code == 0:
             continue
         inp = {k: u[k] for k in ("k", "batch", "gh", "init", "common", "a", "b")}
+        inp["idsC"], inp["idsA"], inp["idsB"] = ids_of(u)
         if code in KEYS:
             f = dict(kind="history", key=KEYS[code], case=inp, observed={"finalizedA": fa, "finalizedB": fb},
                      what="two views of the real liskbft module finalize conflicting blocks (heights %d and %d, fork after %d) with "
@@ -113,17 +133,61 @@ def run(ck):
     ck.extra["traces_validated_against_impl"] = 2 * len(recs)
     ck.cov["rule"] = ("corpus (the two refutation witnesses) + random universes: common prefix and two branches extended in network "
                       "phases by simulated validators (honest: maxHeightGenerated = largest height forged, refuses any header "
-                      "contradicting an earlier own header; Byzantine < 1/3 weight: arbitrary maxHeightGenerated, double forging), "
+                      "contradicting an earlier own header; Byzantine < 1/3 weight: arbitrary maxHeightGenerated, double forging, "
+                      "same-tuple/different-id double forging: the block it forged at that height on the other branch re-forged with "
+                      "identical BFT fields and another id, possibly as the first block of both branches), every block carries an "
+                      "opaque id that liskbft never sees and the oracle compares, "
                       "batch 3..5, weights 1..3, precommit thresholds from floor(W/3)+1, fork-local validator-set changes; each chain "
                       "must be accepted by the module. Non-trivial = distinct universes where some branch finalized beyond the fork")
-    ck.assume += ["heights below 2^32-1", "block identity = header-chain prefix (hash collisions excluded)"]
+    ck.assume += ["heights below 2^32-1 (discharged for the model by C02 votes32_agrees)",
+                  "block identity = the id-tagged history; the only identity assumption is that a block id determines the block and "
+                  "its history (hash collision-freeness, ids_determine_history) -- equal BFT tuples with distinct ids are NOT collisions: "
+                  "they are a double forge and the forger counts as Byzantine (thonest / thonest_b)",
+                  "validator addresses pairwise distinct (SetBFTParameters accepts duplicates; Go's stable sort and the model's "
+                  "sort_desc then order equal addresses differently, so duplicate addresses are outside the tie; the safety theorems "
+                  "themselves hold for the model with or without duplicates)"]
+    node_level_defence(ck)
     if ck.tier == "thorough":
         ck.coqchk(["LE.Properties.C01"])
+
+
+def node_level_defence(ck):
+    """Composition obligation (mechanism 'contradicting headers rejected', pkg/consensus/verify.go): the safety theorems assume
+    that an honest node never builds on a header that contradicts its generator's earlier headers in the window.  The module's
+    verdict (IsHeaderContradictingChain) is tied to the model by C02/C07; here a real Executer is offered re-signed successors
+    whose maxHeightGenerated / height relation was altered (C03's world generator, chains longer than the window) and must reject
+    every one the module flags."""
+    binp = ck.go_build("c03")
+    if not binp:
+        return
+    recs = ck.run_harness(binp, ["-worlds", "9" if ck.tier == "quick" else "30", "-points", "2"], out_name="node.jsonl")
+    if recs is None:
+        return
+    flagged = [r for r in recs if r["k"] == "pv" and r["ve"]["contradicting"]]
+    deep = [r for r in flagged if r["block"]["header"]["height"] > 3 * r["ve"].get("batch", 1 << 30) + r["block"]["header"]["mhg"]]  # older than the window
+    # the world generator is time-dependent: how many flagged successors a run offers is reported, not demanded
+    ck.extra["node_level_contradicting_successors_older_than_window"] = len(deep)
+    for r in flagged:
+        ck.count()
+        ck.nontrivial(("node-contra", r["alt"], r["resigned"], r["impl"]["class"]))
+        if r["impl"]["class"] == "ok":
+            ck.failures.append(dict(
+                kind="input", key="c01:node:contradicting-header-accepted",
+                what="consensus.Executer accepted a block (alteration '%s', height %d, maxHeightGenerated %d) that the BFT module "
+                     "flags as contradicting its generator's earlier headers: an honest node would then build on a double vote"
+                     % (r["alt"], r["block"]["header"]["height"], r["block"]["header"]["mhg"]),
+                case={"node": r}, spec_violated=True, observed=r["impl"],
+                theorem_or_correspondence="composition: verifyBlock consults IsHeaderContradictingChain (C01 safety premise)"))
+    ck.extra["node_level_contradicting_successors_offered"] = len(flagged)
 
 
 def replay(ck, path):
     doc = json.load(open(path))
     case = doc.get("input")
+    if case and "node" in case:
+        print("node-level case (time-dependent world, re-generated rather than replayed): %s" % doc.get("what"))
+        run(ck)
+        return ck.finish(LEVEL)
     if not case:
         print("replay names a broken obligation, no input: %s" % doc.get("what"))
         run(ck)
